@@ -165,6 +165,13 @@ C01_Pos(e, p, m, m2, M) ==
      /\ q.k = "n"  /\ 2 * Abs(q.v - m2.pos[a]) <= SlackOf(M, m2, a)
      /\ sq.k = "n" /\ 2 * Abs(sq.v - m2.pos[a]) <= SlackOf(M, m2, a)
 C01_Mode(e, p, m, m2, M) == m2.rel = e.rep.rel /\ e.rep.srel = e.rep.rel
+\* an axis named by an accepted absolute request is carried by the emitted program under the standard letters, i.e. the
+\* interpreter knows it afterwards (otherwise C01_Pos would be vacuous on a program that moves unnamed or mislabelled axes)
+AbsRequest(e, p) == \/ (e.call \in MoveCalls /\ ~p.rel)
+                    \/ e.call \in BypassCalls \cup {"set_axis"}
+C01_Carries_Ante(e, p, m, m2, M) == ~M.xf /\ e.out = "ok" /\ ~e.a.haspt /\ AbsRequest(e, p) /\ \E i \in 1..3 : e.a.ax[i].k = "n"
+C01_Carries(e, p, m, m2, M) ==
+  C01_Carries_Ante(e, p, m, m2, M) => \A i \in 1..3 : e.a.ax[i].k = "n" => m2.known[AxSeq[i]]
 
 -----------------------------------------------------------------------------
 (* C02 -- interlocks                                                        *)
